@@ -1,5 +1,7 @@
 """C02 - DomainError is raised exactly at the points outside the (strict) domain."""
 from __future__ import annotations
+import math
+from fractions import Fraction
 from hypothesis import given, strategies as st
 from harness import strategies as S
 from harness import boundary as BD
@@ -12,7 +14,10 @@ RULE = ("Generated trees/DAGs x points, plus boundary injection (a constrained n
         "exponential, self-cancelling sum, n=1 power/root, variable-free zero-valued trees, nested n-ary nodes). "
         "The same object is also evaluated at 2-4 points in a row (defined and undefined mixed).  Oracle = reference interpreter's exact/with-margin domain decision.  Non-trivial = decided case whose "
         "offending or nearest (distance <= 2^-10) constrained sub-expression lies at depth >= 2 or in a masking "
-        "context; distinct by SHA-1 of (canonical model, point).")
+        "context; distinct by SHA-1 of (canonical model, point).  Part 'subnormal': trees over + - * / negation and reciprocal "
+        "(arity <= 2) at coordinates k*2^e with e in [-1074,-1000]; own exact rational evaluator, decided only when every "
+        "exact intermediate is exactly a double (subnormals included): DomainError iff a denominator is exactly zero, a "
+        "finite number otherwise; non-trivial there = a non-zero subnormal denominator or an exact zero denominator.")
 ASSUMPTIONS = [
     "documented strict domains: denominators != 0, log argument > 0, Power base > 0, root argument != 0 for n >= 2 and > 0 for even n",
     "cases within 4 eps of a boundary on the inexact track are undecidable for a float implementation and skipped (counted)",
@@ -153,6 +158,146 @@ def make_extreme(stats):
     return test
 
 
+# ---------------------------------------------------------------------------------------------
+# subnormal magnitudes: the bottom of the double range (2^-1074 .. 2^-1000), decided exactly
+
+TINY_TAGS = ("Add", "Multiply", "Minus", "Divide", "Negation", "Reciprocal")
+
+
+def double_exact(q):
+    """Is the rational exactly a double, subnormals included?"""
+    if q == 0:
+        return True
+    d = q.denominator
+    if d & (d - 1) or d.bit_length() - 1 > 1074:
+        return False
+    n = abs(q.numerator)
+    n >>= (n & -n).bit_length() - 1
+    return n.bit_length() <= 53 and abs(q) < Fraction(2) ** 1000
+
+
+def tiny_eval(m, env, notes):
+    """Exact rational value of a tree over TINY_TAGS (arity <= 2) whose every intermediate is exactly a double:
+    ('ok', q) | ('undef', node) | ('range', node).  notes collects the denominators met."""
+    t = m[0]
+    if t == "Constant":
+        return "ok", Fraction(m[1])
+    if t == "Variable":
+        return "ok", Fraction(env[m[1]])
+    kids = [tiny_eval(c, env, notes) for c in M.children(m)]
+    for st_ in ("range", "undef"):
+        for k in kids:
+            if k[0] == st_:
+                return k
+    qs = [k[1] for k in kids]
+    if t == "Add":
+        q = sum(qs, Fraction(0))
+    elif t == "Multiply":
+        q = Fraction(1)
+        for x in qs:
+            q *= x
+    elif t == "Minus":
+        q = qs[0] - qs[1]
+    elif t == "Negation":
+        q = -qs[0]
+    else:
+        den = qs[-1]
+        notes.append(den)
+        if den == 0:
+            return "undef", m
+        q = (qs[0] if t == "Divide" else Fraction(1)) / den
+    if not double_exact(q):
+        return "range", m
+    return "ok", q
+
+
+def check_tiny(stats, m, env, prop=None, sub="subnormal"):
+    """prop C02: DomainError exactly when a denominator is exactly zero, a finite number otherwise - also when the
+    denominator is a subnormal double.  prop C01: that number is exactly the rational value."""
+    pid = prop or ID
+    stats.case()
+    notes = []
+    st_, q = tiny_eval(m, env, notes)
+    stats.count("tiny:" + st_)
+    if st_ == "range":
+        return
+    out = lib.call(lambda: build(m).at(lib.Point(**env)))
+    case = make_case(sub, m, env)
+    where = f"{M.text(m)[:300]} at {M.point_text(env)}"
+    if out.kind == lib.OVF:
+        stats.count("overflow-skip")
+        return
+    if pid == ID:
+        if st_ == "undef" and out.kind != lib.DOM:
+            raise violation(pid, sub, f"undefined-but:{out.kind}:{q[0]}", case,
+                            f"{where}: the denominator of {M.text(q)[:120]} is exactly zero but at() gave {out!r}")
+        if st_ == "ok" and out.kind == lib.DOM:
+            raise violation(pid, sub, f"defined-but-raises:{m[0]}", case,
+                            f"{where}: every denominator is non-zero (the smallest is {float(min(abs(d) for d in notes)) if notes else None!r}) "
+                            f"and every exact intermediate is a double, exact value {float(q)!r}, but at() raised DomainError")
+        if st_ == "ok" and (out.kind != lib.NUM or not math.isfinite(out.value)):
+            raise violation(pid, sub, f"defined-but:{out.kind}", case, f"{where}: exact value {float(q)!r} but at() gave {out!r}")
+    elif st_ == "ok" and out.kind != lib.NUM:
+        raise violation(pid, sub, f"no-number:{out.kind}", case,
+                        f"{where}: a point of the domain (every denominator non-zero, every exact intermediate a double), exact value "
+                        f"{float(q)!r}, but at() gave {out!r}")
+    elif st_ == "ok" and Fraction(out.value) != q:
+        raise violation(pid, sub, f"inexact:{m[0]}", case,
+                        f"{where}: every exact intermediate is a dyadic rational that is exactly a double; expected exactly "
+                        f"{float(q)!r}, got {out.value!r}")
+    small = [d for d in notes if d != 0 and abs(d) < Fraction(1, 2 ** 1022)]
+    if small or st_ == "undef":
+        if small:
+            stats.count("subnormal-denominator")
+        stats.nontrivial_case(M.digest(M.canon(m), sorted(env.items())),
+                              describe(m, env, reference=st_, library=repr(out), subnormal_denominators=len(small)))
+
+
+def tiny_values():
+    return st.builds(lambda k, e, sg: sg * math.ldexp(float(k), e), st.integers(1, 7),
+                     st.one_of(st.integers(-1074, -1022), st.integers(-1040, -1000)), st.sampled_from([1, -1]))
+
+
+@st.composite
+def tiny_trees(draw, names, depth):
+    if depth == 0 or draw(st.integers(0, 4)) == 0:
+        if draw(st.integers(0, 3)) == 0:
+            return ("Constant", draw(st.sampled_from([0, 1, 2, 3, -1, 0.5, 4, -2, 0.25])))
+        return ("Variable", draw(st.sampled_from(names)))
+    t = draw(st.sampled_from(TINY_TAGS))
+    if t in ("Add", "Multiply"):
+        return (t, tuple(draw(tiny_trees(names, depth - 1)) for _ in range(draw(st.integers(1, 2)))))
+    if t in ("Minus", "Divide"):
+        return (t, draw(tiny_trees(names, depth - 1)), draw(tiny_trees(names, depth - 1)))
+    return (t, draw(tiny_trees(names, depth - 1)))
+
+
+def make_tiny(stats, prop=None):
+    @given(st.data())
+    def test(data):
+        names = data.draw(S.name_lists(1, 3))
+        env = {n: data.draw(tiny_values()) for n in names}
+        if len(names) >= 2 and data.draw(st.booleans()):
+            env[names[1]] = env[names[0]] * data.draw(st.sampled_from([1, 2, 3, -1, 0.5]))     # related coordinates: exact quotients, exact zeros
+        if data.draw(st.integers(0, 3)) == 0:
+            m = data.draw(tiny_trees(names, data.draw(st.integers(1, 3))))
+        else:
+            # a quotient of two subnormal-valued terms (the quotient itself is an ordinary number), inside a small context
+            def small():
+                v = ("Variable", data.draw(st.sampled_from(names)))
+                w = ("Variable", data.draw(st.sampled_from(names)))
+                c = ("Constant", data.draw(st.sampled_from([1, 2, 3, -1, 0.5, 4, -2])))
+                return data.draw(st.sampled_from([v, ("Add", (v, w)), ("Minus", v, w), ("Multiply", (v, c)), ("Negation", v),
+                                                  ("Multiply", (c, w)), ("Add", (v,)), ("Minus", ("Multiply", (v, c)), w)]))
+            quot = ("Divide", small(), small())
+            outer = data.draw(st.sampled_from(["id", "Add", "Multiply", "Minus", "Negation", "Divide", "Reciprocal"]))
+            k = ("Constant", data.draw(st.sampled_from([1, 2, 3, -1, 0.5, 0])))
+            m = {"id": quot, "Add": ("Add", (quot, k)), "Multiply": ("Multiply", (k, quot)), "Minus": ("Minus", k, quot),
+                 "Negation": ("Negation", quot), "Divide": ("Divide", k, quot), "Reciprocal": ("Reciprocal", quot)}[outer]
+        check_tiny(stats, m, env, prop)
+    return test
+
+
 def make_masked(stats):
     @given(st.data())
     def test(data):
@@ -167,12 +312,16 @@ def parts(tier):
     return [hyp_part("general", make_general, int(n * 0.25)),
             hyp_part("boundary", make_boundary, int(n * 0.3)),
             hyp_part("masked", make_masked, int(n * 0.3)),
-            hyp_part("sequence", make_sequence, int(n * 0.15)), hyp_part("extreme", make_extreme, int(n * 0.1))]
+            hyp_part("sequence", make_sequence, int(n * 0.15)), hyp_part("extreme", make_extreme, int(n * 0.1)),
+            hyp_part("subnormal", make_tiny, int(n * 0.1))]
 
 
 def replay(case):
     if case.get("sub") == "sequence":
         check_sequence(Stats(), case_model(case), [M.point_from_json(p) for p in case["points"]])
+        return
+    if case.get("sub") == "subnormal":
+        check_tiny(Stats(), case_model(case), case_point(case))
         return
     check(Stats(), case_model(case), case_point(case), case.get("info"), sub=case.get("sub", "domain"), wide=case.get("sub") == "extreme")
 
